@@ -35,7 +35,10 @@ def drive(k, p, n):
     """Returns the retained id sets after every update (list of tuples) and the slot of the first replacement."""
     from ixai.storage import GeometricReservoirStorage
     dup = DUPLICATES['on']
-    s = GeometricReservoirStorage(size=k, constant_probability=p, store_targets=dup)
+    if (k + n) % 2:
+        s = GeometricReservoirStorage(size=k, constant_probability=p, store_targets=dup)
+    else:
+        s = GeometricReservoirStorage(k, p, dup) if dup else GeometricReservoirStorage(k, p)   # positional, documented order
     hist = []
     first_slot = None
     for i in range(1, n + 1):
@@ -105,7 +108,7 @@ def run_scripted_p1(case):
     src = rng.Scripted(case['script'])
     from ixai.storage import GeometricReservoirStorage
     with rng.patched_random(src):
-        s = GeometricReservoirStorage(size=k, constant_probability=case['p1'], store_targets=False)
+        s = GeometricReservoirStorage(k, case['p1']) if k % 2 else GeometricReservoirStorage(size=k, constant_probability=case['p1'])
         for i in range(1, n + 1):
             s.update({'id': i})
             ids = [x['id'] for x in s.get_data()[0]]
@@ -125,7 +128,7 @@ def mc_check(ctx, k, n, p, N, seen, tag):
         random.seed(ctx.seed_for(f'c09:{tag}:{stage}'))
         counts = {}
         for _ in range(m):
-            s = GeometricReservoirStorage(size=k, constant_probability=p, store_targets=False)
+            s = GeometricReservoirStorage(k, p)
             for i in range(1, n + 1):
                 s.update(i)
             ids = s.get_data()[0]
